@@ -179,6 +179,21 @@ def run_harness(ws, cfg, h, log_dir):
     return ob
 
 
+def native_tests_replay(ws, cfg, ob, env):
+    """harness without (useful) symbolic input: the suite may name native tests that run the same concrete scenarios"""
+    for t in cfg.get('native_tests', []):
+        p3 = subprocess.run(['cargo', 'test', '-p', cfg['package'], '--offline', t, '--', '--test-threads=1'], cwd=ws, env=env,
+                            capture_output=True, text=True, timeout=1500)
+        out3 = p3.stdout + p3.stderr
+        if 'test result: FAILED' in out3 or (p3.returncode != 0 and 'Running unittests' in out3):
+            m3 = re.search(r"(thread '[^']*' \(?\d*\)? ?panicked at [^\n]*\n[^\n]*)", out3)
+            ob['witness'] = dict(kind='the harness has no symbolic input; the suite\'s native test `%s` (same concrete scenarios, real code, cargo test) fails' % t,
+                                 test=t, native_replay_failed_as_predicted=True, native_output=(m3.group(1) if m3 else out3[-600:]))
+            ob['replay_cmd'] = 'scratch copy of /repo + /verif/kani/<suite> appended; cargo test -p %s %s' % (cfg['package'], t)
+            return True
+    return False
+
+
 def playback(ws, cfg, h, ob):
     """replay Kani's counterexample on the natively compiled real code (cargo kani playback)"""
     env = dict(os.environ, CARGO_NET_OFFLINE='true')
@@ -190,6 +205,8 @@ def playback(ws, cfg, h, ob):
         p = subprocess.run(cmd2, cwd=ws, env=env, capture_output=True, text=True, timeout=h.get('timeout', 900))
         names = re.findall(r'- (kani_concrete_playback_\w+)', p.stdout)
         if not names:
+            if native_tests_replay(ws, cfg, ob, env):
+                return
             ob['witness'] = None
             ob['detail'] += '\n(no concrete counterexample produced by Kani)'
             return
@@ -228,6 +245,8 @@ def playback(ws, cfg, h, ob):
                              native_output=(m.group(1) if m else out[-800:]))
         if not failed:
             ob['witness'] = None
+            if native_tests_replay(ws, cfg, ob, env):
+                return
             ob['detail'] += '\n(counterexample did not reproduce natively)'
     except Exception as e:  # noqa
         ob['witness'] = None
@@ -273,7 +292,7 @@ def run_suite(suite, prop, tier, workdir):
                 continue
             if ob['status'] == 'refuted':
                 playback(ws, cfg, h, ob)
-                ob['replay_cmd'] = 'scratch copy of /repo + /verif/kani/%s appended; cargo kani -p %s --harness %s -Z concrete-playback --concrete-playback=print' % (suite, cfg['package'], h['name'])
+                ob.setdefault('replay_cmd', 'scratch copy of /repo + /verif/kani/%s appended; cargo kani -p %s --harness %s -Z concrete-playback --concrete-playback=print' % (suite, cfg['package'], h['name']))
             res['obligations'].append(ob)
             res['solver_ms'] += ob.get('smt_ms') or 0
             if h.get('bounded'):
